@@ -202,6 +202,55 @@ func propC19(c *Ctx) {
 		}
 	})
 
+	// hand-over completeness: after a challenger update that has perm channels, EVERY listed
+	// channel is administered by the new challenger - each visited element gets its SetAdmin and
+	// the list is walked to its end on every success path
+	c.Rule("C19.R6", func() {
+		fn := c.Method(hookPkg, "BridgeHook", "BridgeChallengerUpdated")
+		o := c.Ob("C19.R6", "BridgeChallengerUpdated: every listed perm channel is handed to the new challenger on every success path (no early exit, no skipped element)")
+		list := "ophost/types/hook.hasPermChannels(cfg.Metadata).1.PermChannels"
+		po := PO{Params: []string{"h", "ctx", "bridgeId", "cfg"}, NoInline: []string{"hasPermChannels"}, Pure: []string{"hasPermChannels"}, Visits: 3}
+		for _, p := range c.Paths(fn, po) {
+			o.Paths++
+			if !p.OK() || p.Panic {
+				continue
+			}
+			if !p.HasFact(len(p.Events), func(a *Term, pol bool) bool { return pol && a.Key() == "ophost/types/hook.hasPermChannels(cfg.Metadata).0" }) {
+				continue // no perm channels: nothing to hand over
+			}
+			o.Sites++
+			at := func(i int, want bool) bool {
+				return p.HasFact(len(p.Events), func(a *Term, pol bool) bool {
+					return pol == want && a.Op == "bin" && a.Name == "<" && a.Args[0].Key() == fmt.Sprint(i) && strip(a.Args[1]).Key() == "builtin.len("+list+")"
+				})
+			}
+			n := 0
+			for at(n, true) {
+				n++
+			}
+			if !at(n, false) {
+				o.Fail(c.W.Pos(fn.Pos()), fmt.Sprintf("success after %d channel(s) without reaching the end of the list: the remaining channels stay with the old challenger", n), c.Dump(p, -1))
+				continue
+			}
+			for i := 0; i < n; i++ {
+				el := fmt.Sprintf("%s[%d]", list, i)
+				granted := len(p.Find(func(ev *Event) bool {
+					if ev.Kind != EvCall || !strings.HasSuffix(ev.Call.Name, "PermKeeper).SetAdmin") {
+						return false
+					}
+					na := len(ev.Call.Args)
+					return na >= 3 && ev.Call.Args[na-3].Key() == el+".PortID" && ev.Call.Args[na-2].Key() == el+".ChannelID"
+				})) > 0
+				if !granted {
+					o.Fail(c.W.Pos(fn.Pos()), "channel "+el+" is visited but not handed to the new challenger", c.Dump(p, -1))
+				}
+			}
+		}
+		if o.Sites == 0 {
+			o.Fail(c.W.Pos(fn.Pos()), "no success path with perm channels", nil)
+		}
+	})
+
 	c.Rule("C19.R5", func() {
 		for _, hn := range []string{"BridgeCreated", "BridgeChallengerUpdated", "BridgeMetadataUpdated"} {
 			errorDiscipline(c, "C19.R5", "hook."+hn, c.Method(hookPkg, "BridgeHook", hn), PO{Params: []string{"h", "ctx", "bridgeId", "cfg"}, NoInline: []string{"hasPermChannels"}, Pure: []string{"hasPermChannels"}, Visits: 3})
